@@ -46,6 +46,15 @@ class EnumV(object):
         return "EnumV(%r, %r)" % (self.cid, self.value)
 
 
+class SetSeq(object):
+    """a set / frozenset of the implementation run, in the iteration order of that very object
+    (what the list built from it by dump follows); only used to encode the model's input"""
+
+    def __init__(self, frozen, items):
+        self.frozen = frozen
+        self.items = list(items)
+
+
 class Opaque(object):
     def __init__(self, tag):
         self.tag = tag
@@ -65,6 +74,8 @@ def g_dv(v):
         return "(VEnum %s %s)" % (G.g_str(v.cid), g_dv(v.value))
     if isinstance(v, Opaque):
         return "(VOpaque %d%%N)" % v.tag
+    if isinstance(v, SetSeq):
+        return "(%s %s)" % ("VFrozen" if v.frozen else "VSet", G.g_list([g_dv(x) for x in v.items]))
     if isinstance(v, list):
         return "(VList %s)" % G.g_list([g_dv(x) for x in v])
     if isinstance(v, tuple):
@@ -361,6 +372,11 @@ class World(object):
 
     def _build_class(self, d):
         cid, kind = d["cid"], d["kind"]
+        if d.get("external") == "datetime.date":
+            import datetime
+            self.classes[cid] = datetime.date
+            self.cid_of[datetime.date] = cid
+            return
         if d.get("external"):
             return               # lives in a file on sys.path (canary modules)
         if kind == "decimal":
@@ -441,6 +457,8 @@ class World(object):
         """descriptor tree -> real objects (fresh containers everywhere)"""
         if isinstance(v, Inst):
             cls = self.classes[v.cid]
+            if self.by_cid[v.cid].get("external") == "datetime.date":
+                return cls(2020, 1, 2)
             obj = cls.__new__(cls)
             for k, x in v.fields:
                 object.__setattr__(obj, k, self.build(x))
@@ -463,8 +481,23 @@ class World(object):
             return {k: self.build(x) for k, x in v.items()}
         return v
 
-    def abstract(self, o):
+    def model_view(self, o):
+        """like abstract(), but sets keep the iteration order of the real object (SetSeq)"""
+        return self.abstract(o, keep_set_order=True)
+
+    def abstract(self, o, keep_set_order=False):
         """real objects -> descriptor tree (type-exact)"""
+        if keep_set_order:
+            if type(o) in (set, frozenset):
+                return SetSeq(type(o) is frozenset, [self.abstract(x, True) for x in o])
+            if type(o) in (list, tuple):
+                return type(o)(self.abstract(x, True) for x in o)
+            if type(o) is dict:
+                return {k: self.abstract(x, True) for k, x in o.items()}
+            a = self.abstract(o)
+            if isinstance(a, Inst):
+                return Inst(a.cid, [(k, self.abstract(getattr(o, k), True)) for k, _ in a.fields])
+            return a
         t = type(o)
         if o is None or t in (bool, int, float, str):
             return o
@@ -501,6 +534,8 @@ class World(object):
     # -------------------------------------------------------------- Gallina side
     def g_env(self):
         mods = sorted(set([d["module"] for d in self.descs if d["module"] not in (MAIN, "")] + self.extra_modules))
+        if not hasattr(self, "by_cid") or len(self.by_cid) != len(self.descs):
+            self.by_cid = {d["cid"]: d for d in self.descs}
         return "(mkEnv %s %s)" % (G.g_list(["(%s, %s)" % (G.g_str(d["cid"]), g_classdef(d)) for d in self.descs]),
                                   G.g_list([G.g_str(m) for m in mods]))
 
